@@ -8,6 +8,7 @@ import (
 	"io"
 	"os"
 	"runtime/debug"
+	"runtime/pprof"
 	"strings"
 	"time"
 
@@ -57,6 +58,11 @@ func verifReadCap(f *os.File) string {
 func verifWorkerMain() {
 	debug.SetMaxStack(256 << 20)
 	debug.SetGCPercent(400)
+	if pf := os.Getenv("VERIF_PROF"); pf != "" {
+		f, _ := os.Create(pf)
+		pprof.StartCPUProfile(f)
+		defer pprof.StopCPUProfile()
+	}
 	realOut := os.NewFile(uintptr(3), "verif-out")
 	if realOut == nil {
 		realOut = os.Stdout
